@@ -1070,6 +1070,9 @@ func (g *g17) response(density int, sharedResps []string) map[string]any {
 	r := map[string]any{"description": g.pick("ok", "done", "not found")}
 	if g.r.Chance(55) {
 		r["schema"] = g.schema(2, density)
+		if !g.clean && g.r.Chance(5) {
+			r["schema"] = map[string]any{"type": "file"} // a download: class BinaryString
+		}
 	}
 	if g.r.Chance(45) {
 		hs := map[string]any{}
